@@ -288,6 +288,24 @@ def check_text(ctx, S, text):
             wrong.add("pedal")
             V(f"written-pedal-events-differ:{kind}", f"{kind} pedal lines differ from the saved events: missing "
               f"{list((exp - g).elements())[:3]}, unexpected {list((g - exp).elements())[:3]}", S.witness(controls=S.controls[:20]))
+        else:
+            # events of one pedal that fall on the same tick keep their performed order (the state after the tick depends on it)
+            seq_saved = [(R.tick_of(c["time"], S.mpq, S.ppq)[0], c["value"]) for c in sorted(
+                (c for c in S.controls if c["number"] == number), key=lambda c: c["time"])]
+            seq_file = [(f["t"], f["v"]) for f in by[kind]]
+            seq_list = sorted(((R.tick_of(c["time"], S.mpq, S.ppq)[0], c["value"]) for c in S.controls if c["number"] == number),
+                              key=lambda e: e[0])          # stable: list order within a tick
+            ctx.check()
+            if seq_list != seq_saved:
+                ctx.ambiguous()        # the saved list is not in order of time inside one tick: which order counts is open
+            elif seq_file != seq_saved and sorted(seq_file) == sorted(seq_saved) and \
+                    [t for t, _ in seq_file] == [t for t, _ in seq_saved]:
+                k_ = next(i for i, (a_, b_) in enumerate(zip(seq_file, seq_saved)) if a_ != b_)
+                # equal times in seconds leave the order open only if the saved list itself has no order there: it has (list order)
+                wrong.add("pedal")
+                V(f"written-pedal-events-reordered-within-a-tick:{kind}", f"{kind} events on tick {seq_saved[k_][0]} were performed in the order "
+                  f"{[v for t, v in seq_saved if t == seq_saved[k_][0]]} and are written as {[v for t, v in seq_file if t == seq_saved[k_][0]]}",
+                  S.witness(controls=S.controls[:20]))
     other = [f for k in ("sustain", "soft") for f in by[k]]
     # score notes
     A = S.A
